@@ -92,6 +92,7 @@ def mk2d(s):
         semantic_label=label(s.get("label", "CAR"), family=s.get("family", "autoware")),
         roi=tuple(roi) if roi is not None else None,
         uuid=s.get("uuid"),
+        **({"position": tuple(float(v) for v in s["pos"])} if s.get("pos") is not None else {}),
     )
 
 
